@@ -3,6 +3,7 @@ pub mod credp;
 pub mod encp;
 pub mod grpp;
 pub mod offp;
+pub mod permp;
 pub mod plogp;
 pub mod selp;
 pub mod plogp2;
@@ -20,6 +21,7 @@ pub fn plan(prop: &str, tier: &str) -> Option<(PropMeta, Vec<Job>)> {
         "C07" => Some(offp::plan(tier)),
         "C08" => Some(grpp::plan(tier)),
         "C17" => Some(selp::plan(tier)),
+        "C09" => Some(permp::plan(tier)),
         _ => None,
     }
 }
@@ -34,6 +36,7 @@ pub fn run_job(job: &Job) -> JobResult {
         "C07" => offp::run_job(job),
         "C08" => grpp::run_job(job),
         "C17" => selp::run_job(job),
+        "C09" => permp::run_job(job),
         p => JobResult { machinery_error: Some(format!("unknown property {p}")), ..Default::default() },
     }
 }
